@@ -19,6 +19,11 @@
 (* The property for every emitted value v of type T:                       *)
 (*   Unmarshal(Marshal(v)) = v   (nil = empty), same through the type byte *)
 (*   of MarshalInternalMessage for the broadcast messages.                 *)
+(* Frame condition: the byte string a Marshal / MarshalInternalMessage     *)
+(* action returns is a value; no later Marshal action (of another value or *)
+(* of the same one) changes it.  The driver therefore also encodes the     *)
+(* whole emitted set, types interleaved, keeps every byte string, and only *)
+(* then decodes and compares each of them.                                 *)
 (* A behaviour is one step [type |-> T, val |-> v].                        *)
 (***************************************************************************)
 EXTENDS Integers, Sequences, FiniteSets, TLC, Json
